@@ -11,10 +11,12 @@
 //   observation, for the requests in script order (thread 0, thread 1, ...) and then for the same requests once more,
 //   single-threaded, after all threads have finished:
 //       H <instance, numbered by first appearance> <produced telemetry 0/1> x<scope name> x<version> x<schema> {x<key> value}
+//   followed by "|| <provider-lock trace>" (see trace_tokens)
 #include <algorithm>
 #include <map>
 #include <memory>
 #include <set>
+#include <sstream>
 #include <string>
 #include <vector>
 
@@ -216,19 +218,61 @@ static bool parse_script(bool logger, const std::vector<Toks> &secs, size_t from
   return have_sched;
 }
 
+// the provider-lock trace of the race and of the single-threaded repetition, for the acceptor (coq/C19/Lts.v):
+//   <thread> C | <thread> L | <thread> U | <thread> R <instance numbered by order of first return>
+// the repetition is thread number <number of threads>; the provider mutex is the first mutex locked after the threads
+// were spawned, a lock/unlock of any other mutex is reported as X (which the acceptor does not take)
+static size_t g_ev0 = 0;
+static std::string trace_tokens(size_t nthreads)
+{
+  Sched &S = Sched::I();
+  std::string out, pmutex;
+  auto &ev = S.events();
+  for (size_t i = g_ev0; i < ev.size(); i++)
+  {
+    std::istringstream is(ev[i]);
+    long long tid;
+    std::string verb, a;
+    is >> tid >> verb >> a;
+    std::string tok;
+    if (verb == "call") tok = "C";
+    else if (verb == "ret") tok = "R " + a;
+    else if (verb == "lock" || verb == "unlock")
+    {
+      if (pmutex.empty() && verb == "lock") pmutex = a;
+      tok = a == pmutex ? (verb == "lock" ? "L" : "U") : "X";
+    }
+    else continue;   // yields, spin-lock flag operations, spawn/join: not provider-lock events
+    if (!out.empty()) out += " ; ";
+    out += std::to_string(tid < 0 ? (long long)nthreads : tid) + " " + tok;
+  }
+  return out;
+}
+
 template <class H, class GetF>
 static void race(Script &sc, std::vector<std::vector<H>> &got, std::vector<H> &later, GetF get)
 {
   Sched &S = Sched::I();
   got.resize(sc.threads.size());
   for (size_t ti = 0; ti < sc.threads.size(); ti++) got[ti].resize(sc.threads[ti].size());
+  std::vector<H> returned;   // in the order of first return (one thread runs at a time)
+  auto call = [&](Req &r) {
+    S.log("call");
+    H h      = get(r);
+    size_t c = 0;
+    while (c < returned.size() && returned[c].get() != h.get()) c++;
+    if (c == returned.size()) returned.push_back(h);
+    S.log("ret " + std::to_string(c));
+    return h;
+  };
+  g_ev0 = S.events().size();
   for (size_t ti = 0; ti < sc.threads.size(); ti++)
     S.spawn([&, ti] {
-      for (size_t k = 0; k < sc.threads[ti].size(); k++) got[ti][k] = get(sc.threads[ti][k]);
+      for (size_t k = 0; k < sc.threads[ti].size(); k++) got[ti][k] = call(sc.threads[ti][k]);
     });
   S.set_step_limit(20000);
   if (!sc.threads.empty()) S.run_all();
-  for (auto &tk : sc.order) later.push_back(get(sc.threads[tk.first][tk.second]));   // single-threaded, afterwards
+  for (auto &tk : sc.order) later.push_back(call(sc.threads[tk.first][tk.second]));   // single-threaded, afterwards
 }
 
 static void run_prace(const Toks &t, Out &o)
@@ -316,7 +360,10 @@ static void run_prace(const Toks &t, Out &o)
                    *m->GetInstrumentationScope());
     }
   }
-  else o.tag("BADCASE");
+  else { o.tag("BADCASE"); return; }
+  o.tag("||");
+  std::string tr = trace_tokens(sc.threads.size());
+  if (!tr.empty()) o.add(tr);
 }
 
 int main(int argc, char **argv)
